@@ -651,7 +651,7 @@ fn format_output_json_files(files: Files) -> String {
 /// Checks for the `"0"` field name, which is a sentinel value that says "We didn't get any `-c` commands"
 /// This can be depended on, since `"0"` is a reserved field name that cannot be set by user input.
 fn no_fields_extracted(lines: &[Vec<(String,String)>]) -> bool {
-	lines.len() == 1 && lines.first().is_some_and(|record| record.len() == 1 && record.first().is_some_and(|field| field.0 == "0"))
+	!lines.is_empty() && lines.iter().all(|record| record.len() == 1 && record.first().is_some_and(|field| field.0 == "0"))
 }
 
 /// Perform standard output formatting.
@@ -662,12 +662,10 @@ fn format_output_standard(delimiter: &str, mut lines: Vec<Vec<(String,String)>>)
 	// Let's check to see if we are outputting the whole buffer
 	if no_fields_extracted(&lines)  {
 		// We performed len checks in no_fields_extracted(), so unwrap is safe
-		// So let's double pop the 2d vector and grab the value of our only field
-		lines.pop()
-			.unwrap()
-			.pop()
-			.unwrap()
-			.1
+		// Every record holds one whole buffer (one per line with --linewise): print them as they are
+		lines.into_iter()
+			.map(|mut record| record.pop().unwrap().1)
+			.collect()
 	} else {
 		let mut fields = vec![];
 		let mut records = vec![];
